@@ -31,7 +31,7 @@ from vlib.runner import Result, h64
 PROPERTY = 'C05'
 LEVEL = 'exploration'
 RULE = ('Exhaustive: all ordered pairs (a, b) with at least one of a, b a Float/RealFloat, drawn from: every encoding '
-        's in {0,1}, c < 16, exp in [-3,3] as Float and as RealFloat (zeros at every exponent, redundant encodings), '
+        's in {0,1}, c < 16, exp in [-3,3] (thorough: c < 32, exp in [-4,4]) as Float and as RealFloat (zeros at every exponent, redundant encodings), '
         'Float +-inf (also with junk significand), NaN (both sign bits), a boundary pool (binary64 limits, wide '
         'significands, context-tagged Floats), and int/float/Fraction pools of the same values plus non-dyadic rationals, '
         'boundary doubles and big ints; x {+ - * == != < <= > >= compare hash-consistency same_value}; per value '
@@ -999,7 +999,16 @@ def pools(tier='quick'):
     if tier not in _POOLS:
         F, R, B = pool_float(tier), pool_real(tier), pool_boundary()
         N = pool_int(tier) + pool_pyfloat(tier) + pool_fraction(tier)
-        _POOLS[tier] = (F + R + B, N, len(F), len(R), len(B))
+
+        def uniq(xs):           # no encoding twice: cases are distinct by construction
+            seen, out = set(), []
+            for x in xs:
+                k = repr(enc(x))
+                if k not in seen:
+                    seen.add(k)
+                    out.append(x)
+            return out
+        _POOLS[tier] = (uniq(F + R + B), uniq(N), len(F), len(R), len(B))
     return _POOLS[tier]
 
 
@@ -1051,9 +1060,16 @@ def shards(tier, seed):
         out.append(('unary-M', i, tier))
     out.append(('unary-N', 0, tier))
     out.append(('unary-tagged', 0, tier))
-    nh = 96 if tier == 'thorough' else 16
-    out += [('hyp', i, tier, seed) for i in range(nh)]
-    return out
+    nh = 96 if tier == 'thorough' else 32
+    hyp = [('hyp', i, tier, seed) for i in range(nh)]
+    # interleave the Hypothesis shards with the enumeration (load balance; evidence samples from every layer)
+    step = max(1, len(out) // nh)
+    mixed = []
+    for i, sh_ in enumerate(out):
+        if i % step == 0 and hyp:
+            mixed.append(hyp.pop(0))
+        mixed.append(sh_)
+    return mixed + hyp
 
 
 def _try_hash(v):
@@ -1070,6 +1086,8 @@ def run_pairs(res: Result, left, right, sample_salt=0):
     tr = [tname(v) for v in right]
     hl = [_try_hash(v) for v in left]       # None: hash() raised; check_pair_op re-evaluates and reports it
     hr = [_try_hash(v) for v in right]
+    pick = h64('sample', sample_salt) % max(1, len(left) * len(right))      # one (non-)trivial sample per shard
+    seen = 0
     for i, a in enumerate(left):
         for j, b in enumerate(right):
             da, db, ta, tb = dl[i], dr[j], tl[i], tr[j]
@@ -1083,7 +1101,8 @@ def run_pairs(res: Result, left, right, sample_salt=0):
                 res.cls(c, n)
             if nt:
                 res.nt_count += n
-            if (res.evaluations + sample_salt) % 50021 < n:
+            seen += 1
+            if seen >= pick and len(res.nt_samples if nt else res.samples) < 1:
                 res.sample({'kind': 'pair', 'ops': 'all', 'a': enc(a), 'b': enc(b)}, nt=nt)
 
 
@@ -1103,7 +1122,7 @@ def run_unary(res: Result, vals, tier, wide=False):
             res.cls('special', n)
         if nt:
             res.nt_count += n
-        if res.evaluations % 9973 < n:
+        if len(res.nt_samples if nt else res.samples) < 1 and h64('sample', enc(a)) % 5 == 0:
             res.sample({'kind': 'unary', 'ops': 'all', 'a': enc(a)}, nt=nt)
 
 
@@ -1116,7 +1135,7 @@ def run_hyp(res: Result, idx, tier, seed):
     from hypothesis import strategies as st
 
     T = tier == 'thorough'
-    n_examples = 600 if T else 300
+    n_examples = 600 if T else 400
 
     @st.composite
     def number(draw):
@@ -1293,7 +1312,7 @@ def run_hyp(res: Result, idx, tier, seed):
             hres.cls(c, n)
         hres.cls('wide', n)
         hres.cls('wide:' + rel, n)
-        if hres.evaluations % 4099 < n:
+        if len(hres.nt_samples if nt else hres.samples) < 1 and hres.evaluations > 4000:
             hres.sample({'kind': 'pair', 'ops': 'all', 'a': enc(a), 'b': enc(b)}, nt=nt)
 
     prop()
